@@ -1,13 +1,11 @@
 /- lin engine: single-writer / many-reader histories of the real cache, checked for atomicity
    (no half-applied state, no value outside its real-time window, no new-old inversion) -/
 import Driver.SExp
+import KcacheModel.Lin
 namespace Driver
+open KC.Lin
 
-structure Read where
-  id : Nat
-  call : Nat
-  ret : Nat
-  k : Nat          -- which complete state the read returned
+abbrev Read := ReadOp
 
 structure NState where
   writes : List (Nat × Nat × Nat) := []      -- k, call, ret
@@ -63,28 +61,29 @@ def linLine (st : NState) (e : SExp) : NState × String :=
     | some m => (st, "reject C15 " ++ m)
     | none =>
       let n := (n.toNat?).getD 0
-      let wcall (k : Nat) : Nat := if k == 0 then 0 else ((st.writes.find? (·.1 == k)).map (·.2.1)).getD 0
-      let wret (k : Nat) : Nat := if k == 0 then 0 else ((st.writes.find? (·.1 == k)).map (·.2.2)).getD 0
-      -- (1) every read inside its window: not before its write was issued, not after the next one returned
-      let early := st.reads.find? (fun r => r.k > n || !(wcall r.k < r.ret))
-      let late := st.reads.find? (fun r => r.k < n && !(r.call < wret (r.k + 1)))
-      -- (2) no new-old inversion, for one reader and across readers
-      let kmaxs := List.range (n + 2)
-      let maxCallBelow (k : Nat) : Nat := (st.reads.filter (·.k < k)).foldl (fun m r => max m r.call) 0
-      let minRetFrom (k : Nat) : Nat := (st.reads.filter (·.k ≥ k)).foldl (fun m r => min m r.ret) (10 ^ 18)
-      let inv := kmaxs.find? (fun k => k ≥ 1 && !(maxCallBelow k < minRetFrom k))
+      let ws : List WriteOp := st.writes.map fun w => ⟨w.1, w.2.1, w.2.2⟩
+      let wcall (k : Nat) : Nat := KC.Lin.wcall ws k
+      let wret (k : Nat) : Nat := KC.Lin.wret ws k
+      -- the judgement is `KC.Lin.accepts` (proved sound and complete in Props/C15.lean); the three searches below are
+      -- its conjuncts, kept apart only to word the verdict
+      let early := earlyRead ws n st.reads
+      let late := lateRead ws n st.reads
+      let inv := inversionAt st.reads n
+      let maxCallBelow (k : Nat) : Nat := KC.Lin.maxCallBelow st.reads k
+      let minRetFrom (k : Nat) : Nat := (KC.Lin.minRetFrom st.reads k).getD 0
       -- (3) Get: the version of the key in some state of its window
       let getBad := st.gets.find? (fun g =>
         let (c, r, key, v) := g
         !((List.range (n + 1)).any (fun k =>
           (k == 0 || wcall k < r) && (k == n || c < wret (k + 1)) &&
           (if (linStateNames k).contains key then v == some ((k + 1) / 2) else v == none))))
+      if !writesSequential ws n then (st, "diff the writer's own history is not sequential (harness fault)") else
       match early, late, inv, getBad with
       | some r, _, _, _ => (st, s!"reject C15 reader {r.id} saw state {r.k} in [{r.call},{r.ret}] before its write was issued at {wcall r.k}")
       | _, some r, _, _ => (st, s!"reject C15 reader {r.id} still saw state {r.k} in [{r.call},{r.ret}] after write {r.k + 1} had returned at {wret (r.k + 1)}")
       | _, _, some k, _ => (st, s!"reject C15 new-old inversion around write {k}: a read that began at {maxCallBelow k} missed it after another read had returned it at {minRetFrom k}")
       | _, _, _, some g => (st, s!"reject C15 Get({g.2.2.1}) in [{g.1},{g.2.1}] returned {g.2.2.2}, not the key's version in any state of its window")
-      | none, none, none, none => (st, "ok")
+      | none, none, none, none => (st, if accepts ws n st.reads then "ok" else "diff checker conjuncts and Lin.accepts disagree")
   | _ => (st, "bad line")
 
 end Driver
